@@ -169,14 +169,14 @@ def register(M):
     def _(ex, info, a, dty):
         return Adt(dty or 'Mutex<?>', {(None, 0): a[0]})
 
-    @reg('AtomicBool::load')
+    @reg('AtomicBool::load', 'Atomic::load')
     def _(ex, info, a, dty):
         v = ex.materialize(M.load(ex, a[0]))
         if isinstance(v, Adt):
             return ex.materialize(ex.field_of(v, None, 0, 'bool'), 'bool')
         return v
 
-    @reg('AtomicBool::store')
+    @reg('AtomicBool::store', 'Atomic::store')
     def _(ex, info, a, dty):
         cell, path = ex.deref(a[0])
         ex.write_path(cell, path, Adt('AtomicBool', {(None, 0): a[1]}))
